@@ -12,6 +12,7 @@ Results: .work/mutrun/<kind>.json and a table on stdout.  Exit 1 if an expectati
 import argparse, glob, json, os, subprocess, sys, shutil, threading, queue, time
 HERE = os.path.dirname(os.path.dirname(os.path.abspath(__file__)))
 BASE = "/var/tmp/verif-mut"
+KIND = "x"
 ALL = ["C%02d" % i for i in range(1, 29) if i != 4]
 
 
@@ -20,7 +21,7 @@ def sh(cmd, **kw):
 
 
 def worker(i, q, results, all_checks):
-    wdir = os.path.join(BASE, "w%d" % i)
+    wdir = os.path.join(BASE, KIND, "w%d" % i)
     repo = os.path.join(wdir, "repo")
     os.makedirs(wdir, exist_ok=True)
     if not os.path.isdir(repo):
@@ -76,6 +77,8 @@ def main():
     ap.add_argument("kind")
     ap.add_argument("filter", nargs="?", default="")
     a = ap.parse_args()
+    global KIND
+    KIND = a.kind
     items = []
     if a.kind in ("mutants", "benign"):
         for p in sorted(glob.glob(os.path.join(HERE, "selftest", a.kind, "*.diff"))):
